@@ -53,11 +53,18 @@ def py_obj(w, e, flavour=False):
 def gen_prog(rng):
     spec = random_spec(rng, n_user=rng.randint(2, 4), kinds=("plain", "plain", "abc"))
     w = World(spec)
+    mode = rng.choice(["plain"] * 6 + ["opt3", "opt3", "kwtype", "kwtype"])
+    if mode == "kwtype":
+        return gen_kwtype(rng, spec, w)
     npos = rng.choice([1, 1, 2])
     tpos = rng.randrange(npos)
     vary_names = rng.random() < 0.4
     if vary_names and npos == 2:
         tpos = 1
+    if mode == "opt3":
+        # three positions, the type position last; the first two are named differently by different methods (strictly
+        # positional in the entry point) and the middle one is optional in some methods; every call passes all three
+        npos, tpos, vary_names = 3, 2, True
     defs = []
     cls_ids = [0, 2, 3] + w.user_ids()
     for i in range(rng.randint(2, 6)):
@@ -77,6 +84,9 @@ def gen_prog(rng):
         if vary_names and npos == 2:
             # position 0 is named differently by different methods: it becomes strictly positional in the entry point
             d["names"] = [rng.choice(["a0", "b0"]), "a1"]
+        if mode == "opt3":
+            d["names"] = [rng.choice(["a0", "b0"]), rng.choice(["a1", "b1"]), "a2"]
+            d["npos_req"] = rng.choice([1, 2, 3, 3])
         defs.append(d)
     if not any(d["pos"][tpos][0] == 1 for d in defs):
         defs[0]["pos"][tpos] = [1, TYPE, [0, rng.choice(cls_ids)]]
@@ -96,44 +106,91 @@ def gen_prog(rng):
             else:
                 args.append(["V", rng.choice(inst)])
         calls.append({"args": args})
-    return {"spec": spec, "defs": defs, "calls": calls, "tpos": tpos}
+    return {"spec": spec, "defs": defs, "calls": calls, "tpos": tpos, "prehistory": rng.random() < 0.2}
+
+
+def gen_kwtype(rng, spec, w):
+    """the type-valued parameter is keyword-only (k0), next to one ordinary position"""
+    cls_ids = [0, 2, 3] + w.user_ids()
+    defs = []
+    for i in range(rng.randint(2, 5)):
+        r = rng.random()
+        t = [1, TYPE, gen_tyarg(rng, w, rng.choice([0, 1, 1, 2]))] if r < 0.75 else [1, TYPE, [0, 0]] if r < 0.85 else [0, 0]
+        defs.append({"id": i, "pos": [[0, rng.choice(cls_ids)]], "npos_req": 1, "kw": [[0, t, True]], "prio": rng.choice([0, 0, 0, 1])})
+    if not any(d["kw"][0][1][0] == 1 for d in defs):
+        defs[0]["kw"][0][1] = [1, TYPE, [0, rng.choice(cls_ids)]]
+    inst = [c for c in cls_ids if w.instantiable(c)]
+    calls = []
+    for _ in range(14):
+        r = rng.random()
+        ka = ["T", gen_tyarg(rng, w, rng.choice([0, 1, 1, 2])), rng.random() < 0.25] if r < 0.75 else ["ANY"] if r < 0.85 else ["V", rng.choice(inst)]
+        calls.append({"args": [["V", rng.choice(inst)]], "kwarg": ka})
+    return {"spec": spec, "defs": defs, "calls": calls, "tpos": 0, "prehistory": False}
+
+
+def slots(d):
+    return list(d["pos"]) + [t for (k, t, req) in d.get("kw", [])]
 
 
 def check(ctx, prog, stats, samples):
     w = world_from(prog["spec"])
     defs = prog["defs"]
-    b = progs.Built(w, defs)
+    if prog.get("prehistory"):
+        # before the first call: as many plain methods as the program has, the signature looked at, all of them
+        # unregistered again, then the program's own methods (the first to say type[...]) -- nothing of that may show
+        import inspect
+        b = progs.Built(w, [])
+        dummies = [{"id": 900 + j, "pos": [[0, 0] if p != 0 else [0, [2, 3][j % 2]] for p in range(len(defs[0]["pos"]))], "npos_req": len(defs[0]["pos"]),
+                    "kw": [], "prio": j} for j in range(len(defs))]
+        for d in dummies:
+            b.register(d)
+        if not hasattr(b.ov, "dispatch"):
+            b.ov.rename("f")                 # what @ovld does for a decorated def: the public function object exists before the first call
+        str(inspect.signature(b.ov.dispatch).parameters)
+        for d in dummies:
+            b.unregister(d["id"])
+        for d in defs:
+            b.register(d)
+        stats["prehistories"] = stats.get("prehistories", 0) + 1
+    else:
+        b = progs.Built(w, defs)
     mms = R.model_defs(defs)
     tpos = prog["tpos"]
-    keys, pyargs = [], []
+    keys, pyargs, pykw = [], [], []
+
+    def one(a, ww):
+        if a[0] == "V":
+            return ww.instance(a[1]), [0, a[1]]
+        if a[0] == "ANY":
+            return typing.Any, [1, TYPE, [0, 0]]
+        return py_obj(ww, a[1], a[2]), [1, TYPE, a[1]]
     for call in prog["calls"]:
         kpos, vals = [], []
         for p, a in enumerate(call["args"]):
-            if a[0] == "V":
-                vals.append(w.instance(a[1]))
-                kpos.append([0, a[1]])
-            elif a[0] == "ANY":
-                vals.append(typing.Any)
-                kpos.append([1, TYPE, [0, 0]])
-            else:
-                vals.append(py_obj(w, a[1], a[2]))
-                kpos.append([1, TYPE, a[1]])
-        keys.append([kpos, []])
+            v, k = one(a, w)
+            vals.append(v)
+            kpos.append(k)
+        kw, kkw = {}, []
+        if "kwarg" in call:
+            v, k = one(call["kwarg"], w)
+            kw, kkw = {"k0": v}, [[0, k]]
+        keys.append([kpos, kkw])
         pyargs.append(vals)
+        pykw.append(kw)
     mres = model.run_cases([[10, w.encode(), mms, [[0, k] for k in keys]], [22, w.encode(), mms, keys]])
-    for call, vals, mo, art in zip(prog["calls"], pyargs, mres[0], mres[1]):
-        out, entered = b.call(vals)
+    for call, vals, kwv, mo, art in zip(prog["calls"], pyargs, pykw, mres[0], mres[1]):
+        out, entered = b.call(vals, kwv)
         stats["evaluations"] += 1
         case = dict(prog, calls=[call])
         m = progs.dec_outcome(mo)
         stats["hist"][out[0]] += 1
         stats["distinct"].add(hash(json.dumps([prog["defs"], call])))
-        if out != m:
+        broken = out != m
+        if broken:
             ctx.violation(f"implementation {out} != model {m}", case, kind="correspondence")
-            continue
         # reference rule
         def applicable(d):
-            for p, (a, t) in enumerate(zip(call["args"], d["pos"])):
+            for p, (a, t) in enumerate(zip(call["args"] + ([call["kwarg"]] if "kwarg" in call else []), slots(d))):
                 if a[0] == "V":
                     if t[0] == 1:
                         return False
@@ -162,13 +219,17 @@ def check(ctx, prog, stats, samples):
         def beats(x, y):
             if x["prio"] != y["prio"]:
                 return x["prio"] > y["prio"]
-            if x["pos"] == y["pos"]:
+            if slots(x) == slots(y):
                 return order[x["id"]] > order[y["id"]]
-            return all(le(a, c) for a, c in zip(x["pos"], y["pos"]))
+            return all(le(a, c) for a, c in zip(slots(x), slots(y)))
         win = [x for x in app if all(beats(x, y) for y in app if y is not x)]
         exp = ["nomethod"] if not app else ["run", win[0]["id"]] if len(win) == 1 else ["ambig"]
         if exp != out:
-            if art or (exp == ["ambig"] and R.kf01_shape_generic(app, out, le)):
+            if broken:
+                # the tie is broken for this call: KF-01's class is where the model of the unchanged code leaves the rule
+                if m == exp or not (exp == ["ambig"] and R.kf01_shape_generic([dict(d, pos=slots(d)) for d in app], out, le)):
+                    ctx.violation(f"implementation {out} deviates from the reference subtype rule {exp}", case)
+            elif art or (exp == ["ambig"] and R.kf01_shape_generic([dict(d, pos=slots(d)) for d in app], out, le)):
                 ctx.known_hit("KF-01", case)
                 stats["kf01"] += 1
             else:
@@ -179,9 +240,13 @@ def check(ctx, prog, stats, samples):
     df = [dict(d, body="fnext") for d in defs]
     bn, bf = progs.Built(world_from(prog["spec"]), dn), progs.Built(world_from(prog["spec"]), df)
     for call, vals in zip(prog["calls"], pyargs):
-        vn = [bn.w.instance(a[1]) if a[0] == "V" else typing.Any if a[0] == "ANY" else py_obj(bn.w, a[1], a[2]) for a in call["args"]]
-        vf = [bf.w.instance(a[1]) if a[0] == "V" else typing.Any if a[0] == "ANY" else py_obj(bf.w, a[1], a[2]) for a in call["args"]]
-        rn, rf = bn.call(vn), bf.call(vf)
+        if any(d.get("kw") for d in defs):
+            break              # Ovld.next takes positional arguments only: no f.next spelling of a walk with keywords
+        vn = [one(a, bn.w)[0] for a in call["args"]]
+        vf = [one(a, bf.w)[0] for a in call["args"]]
+        kn = {"k0": one(call["kwarg"], bn.w)[0]} if "kwarg" in call else {}
+        kf = {"k0": one(call["kwarg"], bf.w)[0]} if "kwarg" in call else {}
+        rn, rf = bn.call(vn, kn), bf.call(vf, kf)
         stats["evaluations"] += 1
         stats["next_walks"] += 1
         if rn != rf:
@@ -205,9 +270,9 @@ def run(ctx):
         if len(ctx.violations) > 5:
             break
     return {"evaluations": stats["evaluations"], "distinct_nontrivial": len(stats["distinct"]),
-            "rule": "random hierarchies; 2-6 methods over 1-2 positions, one position annotated with type[...] over classes, bare and parametrised generics (list, dict, nested to depth 2), bare type or object, the others with classes; 14 calls passing classes, bare / parametrised / nested generics (25% in typing.List / typing.Dict spelling), typing.Any and ordinary values; every case involves a type-valued position: all non-trivial; distinct by content",
+            "rule": "random hierarchies; 2-6 methods over 1-2 positions (a fifth of the programs: three positions with differently named, partly optional leading ones; a fifth: the type-valued parameter keyword-only), one position annotated with type[...] over classes, bare and parametrised generics (list, dict, nested to depth 2), bare type or object, the others with classes; 14 calls passing classes, bare / parametrised / nested generics (25% in typing.List / typing.Dict spelling), typing.Any and ordinary values; every case involves a type-valued position: all non-trivial; distinct by content",
             "samples": samples, "programs": stats["programs"], "outcome_histogram": dict(stats["hist"]),
-            "deviations_attributed_to_KF-01": stats["kf01"], "walks_f_next_vs_call_next": stats["next_walks"], "traces_validated_against_impl": stats["evaluations"]}
+            "deviations_attributed_to_KF-01": stats["kf01"], "walks_f_next_vs_call_next": stats["next_walks"], "programs_built_after_a_same_count_swap_with_the_signature_inspected": stats.get("prehistories", 0), "traces_validated_against_impl": stats["evaluations"]}
 
 
 def replay(ctx, payload):
